@@ -523,12 +523,16 @@ class ConfigWalk:
             return result
 
         if isinstance(x, dict):
-            result = {}
-            for key, value in x.items():
+            # Values are processed in the order of their keys (as when
+            # computing the identifier): what is derived from the position of
+            # the first visit (e.g. generated paths of shared configurations)
+            # must not depend on the insertion order
+            processed = {}
+            for key in sorted(x.keys()):
                 assert isinstance(key, (str, float, int))
                 with self.map(key):
-                    result[key] = self(value)
-            return result
+                    processed[key] = self(x[key])
+            return {key: processed[key] for key in x}
 
         if isinstance(x, (float, int, str, Path, Enum)):
             return x
